@@ -6,4 +6,5 @@ export GOFLAGS=-mod=mod GOPROXY=off GOSUMDB=off GOTOOLCHAIN=local
 mkdir -p bin evidence replays
 cp /repo/go.sum sim/go.sum
 (cd sim && go build -tags verif -o ../bin/walsim ./cmd/walsim)
+(cd sim && go build -race -tags "verif edgefree" -gcflags='verif/sim/...=-race=false' -o ../bin/walsim-race ./cmd/walsim)
 echo "setup ok: $(ls -la bin/walsim)"
